@@ -347,7 +347,17 @@ def run(ck, m):
     ok = loop is not None and norm(loop.iter) == "_styles" and len(loop.body) == 1 and isinstance(loop.body[0], ast.If) and norm(loop.body[0].test) == f"{lv_}.is_supported()" \
         and len(loop.body[0].body) == 1 and not loop.body[0].orelse and (isinstance(loop.body[0].body[0], ast.Break) or (isinstance(loop.body[0].body[0], ast.Return) and norm(loop.body[0].body[0].value) == lv_)) \
         and not loop.orelse and isinstance(ac.body[-1], ast.Return) and norm(ac.body[-1].value) == lv_
-    ck.ob("R5", ac, ok, "auto_image_class must return the first class of _styles whose is_supported() is true, else the last one", stmt="auto_image_class: first supported else last")
+    # second accepted idiom: `*preferred, fallback = _styles`; `for c in preferred: if c.is_supported(): return c`; `[fallback.is_supported()]`; `return fallback`
+    okB = False
+    un_ = next((s_ for s_ in ac.body if isinstance(s_, ast.Assign) and len(s_.targets) == 1 and isinstance(s_.targets[0], ast.Tuple) and len(s_.targets[0].elts) == 2
+                and isinstance(s_.targets[0].elts[0], ast.Starred) and isinstance(s_.targets[0].elts[1], ast.Name) and norm(s_.value) == "_styles"), None)
+    if un_ is not None and loop is not None:
+        pref_, fb_ = norm(un_.targets[0].elts[0].value), un_.targets[0].elts[1].id
+        okB = norm(loop.iter) == pref_ and len(loop.body) == 1 and isinstance(loop.body[0], ast.If) and norm(loop.body[0].test) == f"{lv_}.is_supported()" and not loop.body[0].orelse \
+            and len(loop.body[0].body) == 1 and isinstance(loop.body[0].body[0], ast.Return) and norm(loop.body[0].body[0].value) == lv_ and not loop.orelse \
+            and isinstance(ac.body[-1], ast.Return) and norm(ac.body[-1].value) == fb_ \
+            and all(norm(s_) == f"{fb_}.is_supported()" for s_ in ac.body[ac.body.index(loop) + 1:-1])
+    ck.ob("R5", ac, ok or okB, "auto_image_class must return the first class of _styles whose is_supported() is true, else the last one", stmt="auto_image_class: first supported else last")
     ks = m.get(KT, "KittyImage.is_supported")
     isup = m.get(IT, "ITerm2Image.is_supported")
 
